@@ -15,20 +15,25 @@ theorem lit20 : (2.0 : ℝ) = 2 := by norm_num
 theorem lit00 : (0.0 : ℝ) = 0 := by norm_num
 theorem lit025 : (0.25 : ℝ) = 1 / 4 := by norm_num
 
-/-- closed form of one update in the frictionless, unbounded, non-periodic case with time-step factor 1 -/
+/-- closed form of one update in the frictionless, unbounded, non-periodic case, for any time-step factor `n` of the
+    variable: the integrator runs with the slow time step `h = dt·n` in every term and with the bias force scaled back
+    to its instantaneous value `fb / n` -/
 theorem extIntegrate_plain (p : ExtParams ℝ) (hl : p.langevin = false) (hlo : p.reflLower = none)
-    (hup : p.reflUpper = none) (hper : p.per = none) (ht : p.tsf = 1)
+    (hup : p.reflUpper = none) (hper : p.per = none)
     (s : ExtState ℝ) (x fb fa rnd : ℝ) :
     (extIntegrate p s x fb fa rnd).prevX = s.xExt ∧
     (extIntegrate p s x fb fa rnd).prevV = s.vExt ∧
-    (extIntegrate p s x fb fa rnd).vExt = s.vExt + p.dt * (fb - p.k * (s.xExt - x)) / p.mass ∧
+    (extIntegrate p s x fb fa rnd).vExt =
+      s.vExt + (p.dt * (p.tsf : ℝ)) * (fb / (p.tsf : ℝ) - p.k * (s.xExt - x)) / p.mass ∧
     (extIntegrate p s x fb fa rnd).xExt =
-      s.xExt + p.dt * (s.vExt + p.dt * (fb - p.k * (s.xExt - x)) / p.mass) ∧
+      s.xExt + (p.dt * (p.tsf : ℝ)) *
+        (s.vExt + (p.dt * (p.tsf : ℝ)) * (fb / (p.tsf : ℝ) - p.k * (s.xExt - x)) / p.mass) ∧
     (extIntegrate p s x fb fa rnd).ek =
-      1 / 2 * p.mass * (s.vExt + 1 / 2 * p.dt * (fb - p.k * (s.xExt - x)) / p.mass) ^ 2 ∧
+      1 / 2 * p.mass *
+        (s.vExt + 1 / 2 * (p.dt * (p.tsf : ℝ)) * (fb / (p.tsf : ℝ) - p.k * (s.xExt - x)) / p.mass) ^ 2 ∧
     (extIntegrate p s x fb fa rnd).ep = 1 / 2 * p.k * (s.xExt - x) ^ 2 := by
   unfold extIntegrate
-  simp only [hl, hlo, hup, hper, ht, dist2S_none, dist2SGrad_none, Option.bind_none, Int.cast_one]
+  simp only [hl, hlo, hup, hper, dist2S_none, dist2SGrad_none, Option.bind_none]
   simp only [lit05, lit20, lit10, Bool.false_eq_true, if_false]
   refine ⟨trivial, trivial, ?_, ?_, ?_, ?_⟩ <;> ring
 
